@@ -40,30 +40,34 @@ RULE = ("cases = batches of random draws per evaluator family: C evaluators {RBF
         "SubsetAddRQ, SubsetAddLLRBF, linear, arbf_exchange plan} x densities 4..64; structural draws per additive class. "
         "A draw is non-trivial when the reference function and its gradient are non-zero on the sampled points and (spline "
         "draws) at least three densities were evaluated; distinct = distinct (family, dimensions, hyper-parameter digest)")
-MIN_NONTRIVIAL = {"quick": 250, "thorough": 2500}
+MIN_NONTRIVIAL = {"quick": 300, "thorough": 15000}
 ASSUMPTIONS = ["evaluation and control points lie inside the feature bounds handed to map_tools",
-               "spline accuracy is a convergence statement decided on sampled points only; bounds calibrated on the "
-               "unchanged tree (x30 above the measured maximum over seeds 0-4, both tiers)",
+               "spline accuracy is a convergence statement decided on sampled points only; error bounds at the default "
+               "density are x4-15 above the maximum measured on the unchanged tree (seeds 0-4, both tiers), convergence "
+               "ratios x1.6-3 above it; the sharp spline oracle is exactness at the grid nodes (1e-10, floor 1.5e-14)",
                "SubsetRBF evaluators are called with control points restricted to the kernel's columns (the only "
                "memory-safe convention of RBFEvaluator); the full-width interface of MappedDFTKernel is a separate oracle"]
 REQUIRED_CALLS = ["libmcider.evaluate_se_kernel", "libmcider.evaluate_se_kernel_antisym",
                   "libmcider.evaluate_se_kernel_spin"]
 
-TOL_EXACT = 1e-12      # C evaluator vs kernel sum, relative to function scale (measured floor 1.3e-15)
-TOL_STRUCT = 1e-13     # pure-numpy re-evaluation of a definition (floor 1e-15)
-TOL_NODE = 1e-10       # spline value at grid nodes (floor 2e-15 ... 1e-13 for large grids)
+TOL_EXACT = 1e-12      # C evaluator vs kernel sum, relative to function scale (measured maximum 3.6e-14 over 5e4 draws)
+TOL_STRUCT = 1e-13     # pure-numpy re-evaluation of a per-dimension factor (floor 8e-16)
+TOL_ADDITIVE = 1e-11   # additive kernels use Newton-Girard sums (cancellation): measured maximum 5.7e-13
+TOL_NODE = 1e-10       # spline value at grid nodes (measured maximum 1.5e-14)
 # spline, full domain, default density 8, relative to max|f| / max|grad f| on the sample (measured maxima in comments)
-BOUND_VAL_D8 = 3e-2    # measured <= 2.2e-3
-BOUND_GRAD_D8 = 0.5    # measured <= 7e-2  (natural boundary condition: O(h) gradient error at the domain edge)
+BOUND_VAL_D8 = 3e-2    # measured <= 3.9e-3
+BOUND_GRAD_D8 = 0.5    # measured <= 0.12  (natural boundary condition: O(h) gradient error at the domain edge)
+BOUND_VAL_INT_D8 = 1e-2   # central half of every bound interval, default density: measured <= 6.4e-4
+BOUND_GRAD_INT_D8 = 1e-1  # measured <= 1.1e-2
 # convergence, expressed as err(2d)/err(d) <= tol while err(d) is above the floor
-RATIO_VAL_FULL = 0.5   # measured <= 0.33 (h^2 at the boundary -> 0.25)
-RATIO_GRAD_FULL = 0.8  # measured <= 0.62 (h^1 -> 0.5)
-RATIO_VAL_INT = 0.25   # interior (central half of every bound interval): measured <= 0.12 (h^4 -> 0.0625)
-RATIO_GRAD_INT = 0.4   # measured <= 0.22 (h^3 -> 0.125)
+RATIO_VAL_FULL = 0.6   # measured <= 0.37 (h^2 at the boundary -> 0.25)
+RATIO_GRAD_FULL = 0.8  # measured <= 0.52 (h^1 -> 0.5)
+RATIO_VAL_INT = 0.25   # interior (central half of every bound interval): measured <= 0.083 (h^4 -> 0.0625)
+RATIO_GRAD_INT = 0.4   # measured <= 0.145 (h^3 -> 0.125)
 FLOOR_FULL = 1e-7
 FLOOR_INT = 1e-8
-BOUND_VAL_INT_TOP = 1e-5   # interior value error at the highest density reached (>= 32): measured <= 6e-8
-BOUND_GRAD_INT_TOP = 3e-4  # measured <= 4e-6
+BOUND_VAL_INT_TOP = 1e-5   # interior value error at the highest density reached (>= 32): measured <= 7.3e-8
+BOUND_GRAD_INT_TOP = 3e-4  # measured <= 8.1e-6
 
 
 @contextlib.contextmanager
@@ -99,8 +103,8 @@ def gen_cases(tier, seed):
     quick = tier == "quick"
     cases = []
     idx = 0
-    ndraw = 8 if quick else 40
-    reps = 1 if quick else 2
+    ndraw = 10 if quick else 150
+    reps = 1 if quick else 3
     for rep in range(reps):
         for fam in CX_FAMILIES:
             for thr in (1, 2, 4):
@@ -114,11 +118,11 @@ def gen_cases(tier, seed):
     idx = 1000
     for fam in ST_FAMILIES:
         idx += 1
-        cases.append({"id": "st-%s" % fam, "kind": "st", "family": fam, "ndraw": 10 if quick else 100, "seed": seed,
+        cases.append({"id": "st-%s" % fam, "kind": "st", "family": fam, "ndraw": 12 if quick else 500, "seed": seed,
                       "idx": idx, "_threads": 2, "_weight": 0.2, "_timeout": 900})
     idx = 2000
-    nsp = 3 if quick else 14
-    for rep in range(1 if quick else 2):
+    nsp = 6 if quick else 60
+    for rep in range(1 if quick else 4):
         for fam in SP_FAMILIES:
             idx += 1
             heavy = fam in ("arbf-o3", "prod-srbf-arbf", "rbf-simple")
@@ -198,11 +202,12 @@ def _spin_ref(kern, X2, C2, alpha):
     return f, df
 
 
-def _call_prefilled(ev, X, rng, dshape=None):
-    """Call an evaluator with pre-filled res / dres buffers; return the increments."""
+def _call_prefilled(ev, X, rng, fs, ds, dshape=None):
+    """Call an evaluator with pre-filled res / dres buffers (content of the size of the function, so that taking the
+    increment does not lose digits); return the increments."""
     n = X.shape[-2]
-    pre = rng.normal(size=n)
-    pred = rng.normal(size=X.shape if dshape is None else dshape)
+    pre = rng.normal(size=n) * fs
+    pred = rng.normal(size=X.shape if dshape is None else dshape) * ds
     res, dres = pre.copy(), pred.copy()
     out = ev(X, res, dres)
     same = out[0] is res and out[1] is dres
@@ -260,7 +265,7 @@ def _cx_rbf(rec, rng, fam):
               mechanism="KernelEvaluator:DiffRBF-vs-formula")
     ev = xe.RBFEvaluator(kern, ctrl, alpha)
     X0 = X.copy()
-    f1, df1, same = _call_prefilled(ev, X, rng)
+    f1, df1, same = _call_prefilled(ev, X, rng, fs, ds)
     rec.require("evaluator_adds_in_place", same and np.array_equal(X, X0), mechanism="RBFEvaluator:buffers")
     rec.check("rbf_value", _err(f1, f0, fs), TOL_EXACT, mechanism="RBFEvaluator:value",
               detail={"nfeat": n1, "n": n, "nctrl": nctrl, "const": c})
@@ -363,7 +368,7 @@ def _cx_subset(rec, rng, fam):
                 detail={"indexes": str(idx), "nfeat": N1, "expected": cols.tolist(), "extracted": got.tolist()})
     if not ok or ev._nfeat != len(cols) or len(ev._exps) != len(cols):
         return  # calling the C routine with inconsistent widths would read/write out of bounds
-    f1, df1, same = _call_prefilled(ev, X, rng, dshape=(n, len(cols)))
+    f1, df1, same = _call_prefilled(ev, X, rng, fs, ds, dshape=(n, len(cols)))
     rec.check("subset_value", _err(f1, f0, fs), TOL_EXACT, mechanism="RBFEvaluator:subset:value",
               detail={"indexes": str(idx), "nfeat": N1})
     rec.check("subset_gradient", _err(df1, df0[:, cols], ds), TOL_EXACT, mechanism="RBFEvaluator:subset:gradient",
@@ -371,7 +376,7 @@ def _cx_subset(rec, rng, fam):
     if fam in ("rbf-allcols", "rbf-subset-fullwidth"):
         # the interface MappedDFTKernel uses: feval(X1, f, df) with df = zeros_like(X1) (full width)
         try:
-            f2, df2, same = _call_prefilled(ev, X, rng)
+            f2, df2, same = _call_prefilled(ev, X, rng, fs, ds)
             e = max(_err(f2, f0, fs), _err(df2, df0, ds))
             rec.check("subset_fullwidth_interface", e, TOL_EXACT, mechanism="RBFEvaluator:subset:full-width-dres",
                       detail={"indexes": str(idx), "nfeat": N1})
@@ -423,7 +428,7 @@ def _cx_antisym(rec, rng):
     rec.check("antisym_reference_gradient_vs_fd", _err(fdj, df0[:m, j], ds), 1e-5,
               mechanism="harness:antisym-reference-gradient")
     ev = xe.AntisymRBFEvaluator(kern, ctrl, alpha)
-    f1, df1, same = _call_prefilled(ev, X, rng)
+    f1, df1, same = _call_prefilled(ev, X, rng, fs, ds)
     rec.check("antisym_value", _err(f1, f0, fs), TOL_EXACT, mechanism="AntisymRBFEvaluator:value",
               detail={"nfeat": N1, "n": n, "nctrl": nctrl})
     rec.check("antisym_gradient", _err(df1, df0, ds), TOL_EXACT, mechanism="AntisymRBFEvaluator:gradient",
@@ -460,7 +465,7 @@ def _cx_spin(rec, rng):
     f0, df0 = _spin_ref(kern, X2, C2, alpha)
     fs, ds = _scales(f0, df0, alpha, 2 * c * c, ls)
     ev = xe.SpinRBFEvaluator(kern, C2, alpha)
-    f1, df1, same = _call_prefilled(ev, X2, rng)
+    f1, df1, same = _call_prefilled(ev, X2, rng, fs, ds)
     rec.check("spin_value", _err(f1, f0, fs), TOL_EXACT, mechanism="SpinRBFEvaluator:value",
               detail={"nfeat": N1, "n": n, "nctrl": nctrl, "const": c})
     rec.check("spin_gradient", _err(df1, df0, ds), TOL_EXACT, mechanism="SpinRBFEvaluator:gradient",
@@ -546,7 +551,10 @@ def _cx_dftk(rec, rng, mode):
                 and mapped.feature_list is fl, mechanism="DFTKernel.map:wiring")
     r0, d0, extra = _dftk_reference(dk, X0T)
     r1, d1 = mapped(X0T)
-    rs = max(float(np.max(np.abs(r0))), 1e-300)
+    # scale: at least 1% of (sum|alpha| * kernel amplitude * baseline), see _scales (a single sample can sit on a zero of f)
+    mb = float(np.max(np.abs(dk.multiplicative_baseline(X0T)[0])))
+    amp = float(np.sum(np.abs(dk.alpha))) * (2 * c * c if mode == "POL" else c)
+    rs = max(float(np.max(np.abs(r0))), 1e-2 * amp * mb, 1e-300)
     dsc = max(float(np.max(np.abs(d0))), 1e-300)
     rec.check("dftkernel_pol_getk_vs_definition", extra, TOL_EXACT, mechanism="DFTKernel.get_k:POL-vs-definition")
     rec.check("dftkernel_map_value[%s]" % mode, _err(r1, r0, rs), TOL_EXACT,
@@ -672,9 +680,9 @@ def _run_st(case, rec, rng):
         dsn = max(float(np.max(np.abs(dKd))), 1e-3 * s)
         dfull = np.zeros(Kd.shape + (N,))
         dfull[..., cols] = dKd
-        rec.check("additive_definition_vs_call", _err(Kc, Kd, s), TOL_STRUCT, mechanism="%s.__call__-vs-definition" % fam,
+        rec.check("additive_definition_vs_call", _err(Kc, Kd, s), TOL_ADDITIVE, mechanism="%s.__call__-vs-definition" % fam,
                   detail={"order": order, "ndim": d})
-        rec.check("additive_definition_vs_k_and_deriv", max(_err(Kk, Kd, s), _err(dKk, dfull, dsn)), 1e-12,
+        rec.check("additive_definition_vs_k_and_deriv", max(_err(Kk, Kd, s), _err(dKk, dfull, dsn)), TOL_ADDITIVE,
                   mechanism="%s.k_and_deriv-vs-definition" % fam, detail={"order": order, "ndim": d})
         rec.nontrivial("%s|%d|%d|%.6g" % (fam, d, order, ls[0]))
         if rec.sample is None:
@@ -691,11 +699,11 @@ def _rand_bounds(rng, N1):
     maps, lo, hi = [], [], []
     for i in range(N1):
         r = rng.random()
-        if r < 0.4:
+        if r < 0.15:
             m = td.UMap(i + 1, float(_logu(rng, 0.2, 2.0)))  # default bounds (0, 1)
-        elif r < 0.55:
+        elif r < 0.3:
             m = td.SignedUMap(i + 1, float(_logu(rng, 0.2, 2.0)))  # (-1, 1)
-        elif r < 0.75:
+        elif r < 0.6:
             sc, ce = float(rng.uniform(0.6, 2.0)), float(rng.uniform(0.0, 0.6))
             m = td.VMap(i + 1, float(_logu(rng, 0.2, 2.0)), scale=sc, center=ce)  # (-center, scale - center)
         else:
@@ -717,10 +725,10 @@ def _build_spline_kernel(fam, rng):
         mk = lambda ls: K.DiffConstantKernel(float(_logu(rng, 0.05, 20.0))) * K.DiffRBF(ls)
         return dict(N1=N1, cols=cols, maxdim=N1, make=mk, mapper="simple", label="c*DiffRBF")
     if fam == "subrbf-simple":
-        N1 = int(rng.integers(2, 6))
+        N1 = int(rng.integers(2, 7))
         k = int(rng.integers(1, min(3, N1) + 1))
         if rng.random() < 0.5:
-            a = int(rng.integers(0, N1 - k + 1))
+            a = int(rng.integers(0 if rng.random() < 0.2 else 1, N1 - k + 1)) if N1 > k else 0
             idx, cols = slice(a, a + k), list(range(a, a + k))
         else:
             cols = rng.choice(N1, size=k, replace=False).tolist()
@@ -884,8 +892,8 @@ def _sp_kernel(rec, rng, fam):
         rec.require("spline_grids_cover_bounds", consistent and all(
             abs(g[i][0] - lo[i]) < 1e-12 and abs(g[i][1] - hi[i]) < 1e-12 for i in g), mechanism=mech + ":grid-bounds")
         fN, _ = kev(XN)
-        pre = rng.normal(size=XN.shape[0])
-        pred = rng.normal(size=XN.shape)
+        pre = rng.normal(size=XN.shape[0]) * fs
+        pred = rng.normal(size=XN.shape) * ds
         r, dr = pre.copy(), pred.copy()
         ev(XN, r, dr)
         rec.check("spline_node_exact", _err(r - pre, fN, max(fs, float(np.max(np.abs(fN))))), TOL_NODE,
@@ -903,6 +911,10 @@ def _sp_kernel(rec, rng, fam):
               detail={"kernel": info["label"], "u": u.tolist()})
     rec.check("spline_gradient_at_default_density", e0[1], BOUND_GRAD_D8, mechanism=mech + ":spline-bound-gradient",
               detail={"kernel": info["label"], "u": u.tolist()})
+    rec.check("spline_value_interior_at_default_density", e0[2], BOUND_VAL_INT_D8, mechanism=mech + ":spline-bound-value",
+              detail={"kernel": info["label"], "u": u.tolist()})
+    rec.check("spline_gradient_interior_at_default_density", e0[3], BOUND_GRAD_INT_D8,
+              mechanism=mech + ":spline-bound-gradient", detail={"kernel": info["label"], "u": u.tolist()})
     nconv = 0
     for a, b in zip(dens[:-1], dens[1:]):
         ea, eb = errs[a], errs[b]
@@ -926,7 +938,6 @@ def _sp_kernel(rec, rng, fam):
                   mechanism=mech + ":spline-convergence-value", detail={"kernel": info["label"], "density": dens[-1]})
         rec.check("spline_gradient_interior_top_density", errs[dens[-1]][3], BOUND_GRAD_INT_TOP,
                   mechanism=mech + ":spline-convergence-gradient", detail={"kernel": info["label"], "density": dens[-1]})
-    rec.note("errs_%s_%d" % (fam, rec.evaluations), {str(k): ["%.2e" % x for x in v] for k, v in errs.items()})
     if len(dens) >= 3 and nconv >= 2 and fs > 1e-300 and ds > 1e-300:
         rec.nontrivial("%s|%s|%d|%d|%.6g" % (fam, info["label"], N1, nctrl, ls[0]))
     if rec.sample is None:
@@ -999,9 +1010,9 @@ def _sp_linear(rec, rng):
     X = rng.normal(size=(int(rng.choice([1, 50, 2500])), N1))
     ev = mt.get_mapped_gp_evaluator_linear(kern, ctrl, alpha)
     f0, d0 = xe.KernelEvaluator(kern, ctrl, alpha)(X)
-    f1, d1, same = _call_prefilled(ev, X, rng)
-    fs = max(float(np.max(np.abs(f0))), 1e-300)
+    fs = max(float(np.max(np.abs(f0))), 1e-2 * float(np.sum(np.abs(alpha))) * float(np.max(np.abs(ctrl))) * float(np.max(np.abs(X))))
     ds = max(float(np.max(np.abs(d0))), 1e-300)
+    f1, d1, same = _call_prefilled(ev, X, rng, fs, ds)
     rec.tag("kernel", "DiffLinearKernel")
     rec.check("linear_value", _err(f1, f0, fs), TOL_EXACT, mechanism="map_tools.linear:value")
     rec.check("linear_gradient", _err(d1, d0, ds), TOL_EXACT, mechanism="map_tools.linear:gradient")
@@ -1093,9 +1104,9 @@ def _sp_splineset_exact(rec, rng):
         for p, i in enumerate(ind_sets[t]):
             others = [fac[q] for q in range(len(fac)) if q != p]
             d0[:, i] += scale[t] * b[p] * (np.prod(others, axis=0) if others else 1.0)
-    f1, d1, same = _call_prefilled(ev, X, rng)
     fs = max(float(np.max(np.abs(f0))), sum(abs(s) for s in scale), 1e-300)
     ds = max(float(np.max(np.abs(d0))), sum(abs(s) for s in scale), 1e-300)
+    f1, d1, same = _call_prefilled(ev, X, rng, fs, ds)
     rec.tag("kernel", "hand-made multilinear terms")
     rec.tag("term_dim", max(len(s) for s in ind_sets))
     rec.check("splineset_accumulation_value", _err(f1, f0, fs), 1e-11, mechanism="SplineSetEvaluator:term-accumulation:value",
